@@ -39,6 +39,7 @@ type objFake struct {
 	getMode map[string]string
 	ngets   map[string]int
 	puts    int
+	aborted int
 }
 
 func newObjFake() *objFake {
@@ -56,9 +57,22 @@ func (o *objFake) handle(w http.ResponseWriter, r *http.Request) {
 	}
 	switch r.Method {
 	case "PUT":
-		body, _ := io.ReadAll(r.Body)
+		body, rerr := io.ReadAll(r.Body)
+		want := r.ContentLength
 		if strings.Contains(r.Header.Get("Content-Encoding"), "aws-chunked") || strings.HasPrefix(r.Header.Get("X-Amz-Content-Sha256"), "STREAMING-") {
 			body = decodeAWSChunked(body)
+			if n, err := strconv.ParseInt(r.Header.Get("X-Amz-Decoded-Content-Length"), 10, 64); err == nil {
+				want = n
+			}
+		}
+		if rerr != nil || (want >= 0 && int64(len(body)) != want) {
+			// an upload the client aborted half-way (e.g. the losing one of two
+			// hedged requests): a real object store does not store it
+			o.mu.Lock()
+			o.aborted++
+			o.mu.Unlock()
+			s3err(400, "IncompleteBody")
+			return
 		}
 		o.mu.Lock()
 		o.puts++
@@ -266,5 +280,6 @@ func TestS3BackendContract(t *testing.T) {
 	}
 	fake.mu.Lock()
 	r.Count("put_attempts_seen", int64(fake.puts))
+	r.Count("aborted_put_bodies_not_stored", int64(fake.aborted))
 	fake.mu.Unlock()
 }
